@@ -102,6 +102,8 @@ let event (toks : string list) : M.event =
   | ["rintr"] -> M.ERerr                 (* a read failing with ErrorKind::Interrupted: to the client any read error ends the stream *)
   | ["werr"; n] -> M.EWerr (num n)
   | ["werr0"; n] -> M.EWerr (num n)      (* the write half reporting Ok(0): write_all turns it into an error (WriteZero) *)
+  | ["wintr"; n] -> M.EWerr (num n)      (* one poll_write failing with ErrorKind::Interrupted: write_all does not retry, any write error ends run() *)
+  | ["cfault"; _] -> M.ENop              (* poll_close failing or pending: the library never closes the transport *)
   | "wmode" :: _ -> M.ENop
   | "start" :: i :: h :: kind :: r ->
     let k = match kind with
@@ -212,15 +214,28 @@ let run_case (body : string) : string list =
   let evs = List.filter (fun t -> t <> []) (List.map split_ws (String.split_on_char ';' body)) in
   (* the harness numbers events by their position among ALL ';'-separated fields; empty
      fields are skipped there without consuming an index only if blank: keep the same rule *)
-  let evs = List.map event evs in
+  (* pub0s <n>: n QoS 0 publishes, each started, polled to completion and forgotten, printing nothing *)
+  let q0 = M.OPub (publish_opts ["q=0"; "t=61"]) in
+  let lab = num "900000" in
+  let quiet_of toks = match toks with
+    | ["pub0s"; n] -> Some (int_of_string n)
+    | _ -> None in
+  let evs = List.map (fun t -> match quiet_of t with Some n -> (n, M.ENop) | None -> (0, event t)) evs in
   (* = M.run_script evs (a left fold of M.step from M.sys_init, numbering the events), iterated here so
      that earlier states are not retained *)
   let rec go s k evs acc =
     match evs with
     | [] -> List.rev acc
-    | e :: r ->
+    | (0, e) :: r ->
       let (s', o) = M.step s e in
-      go s' (k + 1) r (List.rev_append (List.map (fun x -> Printf.sprintf "%d %s" k (obs x)) o) acc) in
+      go s' (k + 1) r (List.rev_append (List.map (fun x -> Printf.sprintf "%d %s" k (obs x)) o) acc)
+    | (n, _) :: r ->
+      let rec rep s n = if n = 0 then s else
+        let s = fst (M.step s (M.EStart (lab, num "0", q0))) in
+        let s = fst (M.step s (M.EPoll lab)) in
+        let s = fst (M.step s (M.EPoll lab)) in
+        rep (fst (M.step s (M.EDropOp lab))) (n - 1) in
+      go (rep s n) (k + 1) r acc in
   go M.sys_init 0 evs []
 
 let () =
